@@ -196,6 +196,8 @@ inductive ModelKind where
   | alertthr (a : Int) (sco : Bool)
   | statecountfn (m : Nat) | statedurationfn (m : Nat)
   | win2 (p e : Nat) (stage : String)     -- |window().periodCount(p).everyCount(e)|<batch receiver>
+  | windowt (p e : Nat) (align fill : Bool)   -- |window().period(p s).every(e s)[.align()][.fillPeriod()]
+  | alertflap (a : Int)                   -- |alert().crit(lambda: "v" > a).flapping(0.25, 0.5).history(5)
 
 def modelKind? (kind : String) (p1 p2 : Nat) : Option ModelKind :=
   match kind with
@@ -220,7 +222,12 @@ def modelKind? (kind : String) (p1 p2 : Nat) : Option ModelKind :=
   | "windowcfill" => some (.windowc p1 p2 true)
   | "alertthr" => some (.alertthr p1 false)
   | "alertthrsco" => some (.alertthr p1 true)
-  | "winsample" | "winstatecount" | "winwhere" | "winchange" | "winderiv" | "winsum" | "wincount" | "winstatecountfn" => some (.win2 p1 p2 kind)
+  | "winsample" | "winstatecount" | "winwhere" | "winchange" | "winderiv" | "winsum" | "wincount" | "winstatecountfn"
+  | "winalert" | "winalertcount" => some (.win2 p1 p2 kind)
+  | "windowt" => some (.windowt p1 p2 false false)
+  | "windowtalign" => some (.windowt p1 p2 true false)
+  | "windowtfill" => some (.windowt p1 p2 false true)
+  | "alertflap" => some (.alertflap p1)
   | _ => none
 
 def renderOuts (l : List (GroupID × Out)) : List String := l.map (fun go => s!"{go.2.key}|{go.2.time}|{go.2.proj}")
@@ -229,6 +236,9 @@ def renderOuts (l : List (GroupID × Out)) : List String := l.map (fun go => s!"
 def thrOf (a : Int) (l : Nat) : Option Int :=
   match l with
   | 1 => some a | 2 => some (a + 2) | 3 => some (a + 4) | _ => none
+
+/-- `.crit(lambda: "v" > a)` only -/
+def critOnly (a : Int) (l : Nat) : Option Int := if l == 3 then some a else none
 
 /-- the model of the node AS THE CODE IS TODAY -/
 def runModel (k : ModelKind) (items : List (Item Pt)) : List String :=
@@ -251,16 +261,23 @@ def runModel (k : ModelKind) (items : List (Item Pt)) : List String :=
   | .alertthr a sco => renderOuts (runNode (alertThrNode (thrOf a) sco) () items)
   | .win2 p e stage =>
     -- two demultiplexers in a row: the window's batches travel on a batch edge under the batch-edge id
-    let items2 := (runNode (windowCountNodeB p e false) () items).map (fun gb => Item.buffered gb.2.bid gb.2)
+    let pipe {Γ σ : Type} (B : Node Γ σ Batch Out) (γ : Γ) := renderOuts (runPipe (windowCountNodeB p e false) () onBatchEdge B γ items)
     match stage with
-    | "winsample" => renderOuts (runNode (sampleNodeB 2) () items2)
-    | "winstatecount" => renderOuts (runNode (stateCountNodeB 3) () items2)
-    | "winstatecountfn" => renderOuts (runNode stateCountFnNodeB () items2)
-    | "winwhere" => renderOuts (runNode whereCountNodeB () items2)
-    | "winchange" => renderOuts (runNode changeDetectNodeB () items2)
-    | "winderiv" => renderOuts (runNode derivativeNodeB () items2)
-    | "winsum" => renderOuts (runNode (iqlNodeB .sum) {} items2)
-    | _ => renderOuts (runNode (iqlNodeB .count) {} items2)
+    | "winsample" => pipe (sampleNodeB 2) ()
+    | "winstatecount" => pipe (stateCountNodeB 3) ()
+    | "winstatecountfn" => pipe stateCountFnNodeB ()
+    | "winwhere" => pipe whereCountNodeB ()
+    | "winchange" => pipe changeDetectNodeB ()
+    | "winderiv" => pipe derivativeNodeB ()
+    | "winsum" => pipe (iqlNodeB .sum) {}
+    | "winalert" => pipe (alertThrNodeB (critOnly 5)) ()
+    | "winalertcount" => pipe (alertCountNodeB (.gt 4)) ()
+    | _ => pipe (iqlNodeB .count) {}
+  | .windowt p e align fill =>
+    -- C03's window model as a grouped receiver; the sink sees the batches themselves
+    renderOuts ((runNode (windowTimeNodeB { period := p * 1000000000, every := e * 1000000000, align := align, fill := fill }) () items).map
+      (fun gb => (gb.1, batchOut gb.2 (gb.2.pts.map (fun q => (q.time, none))))))
+  | .alertflap a => renderOuts (runNode (alertHistNode (critOnly a) false true 5 (goFlapDecide 0.25 0.5)) () items)
 
 /-- float sums / float comparisons are outside the concrete models -/
 def modelApplies (k : ModelKind) (pts : List Pt) : Bool :=
@@ -386,9 +403,21 @@ def judgeIso (lines : Array String) : Verdict := Id.run do
       if m.any (fun t => t.endsWith "|s:OK") then brs := addBr brs "alert-recovery"
       for k in distinctKeys keys do
         brs := alertBranches pr (keys.filter (· == k)).length brs
-    | .win2 _ _ _ =>
+    | .win2 _ _ stage =>
       brs := addBr brs "batch-side"
       if m.any (fun t => t.endsWith "|n:0") then brs := addBr brs "batch-emptied"
+      if stage == "winalert" || stage == "winalertcount" then
+        if m.any (fun t => t.endsWith "=s:OK") then brs := addBr brs "batch-alert-recovery"
+        if m.any (fun t => t.endsWith "=s:CRITICAL") then brs := addBr brs "batch-alert-critical"
+    | .windowt _ _ align fill =>
+      brs := addBr brs (if align then "wint-align" else if fill then "wint-fill" else "wint-plain")
+      if m.any (fun t => t.endsWith "|n:0") then brs := addBr brs "wint-empty-window"
+      if m.any (fun t => !(t.endsWith "|n:0") && !(t.endsWith "|n:1")) then brs := addBr brs "wint-window>=2"
+    | .alertflap a =>
+      -- the flapping flag made a difference: the same node without flap detection emits more
+      let plain := renderOuts (runNode (alertHistNode (critOnly a) false false 5 (fun f _ => f)) () (pts.map (fun pg => Item.point pg.2 pg.1)))
+      brs := addBr brs (if plain.length > m.length then "flap-suppressed" else "flap-never-on")
+      if m.any (fun t => t.endsWith "|s:OK") then brs := addBr brs "alert-recovery"
     | .statecount _ =>
       if m.length < ptsOnly.length then brs := addBr brs "statecount-eval-error-drop"
       if m.any (fun t => t.endsWith "|i:-1") then brs := addBr brs "statecount-reset"
